@@ -108,7 +108,13 @@ def build(inp):
     def rootof(f):
         return attempt(lambda: f().merkle_root())
     o_get = rootof(lambda: n.getter(g))
-    res = attempt(lambda: n.setter(g, e)(vn))
+    # expand off is requested the way callers do it: half of the time by leaving the argument out (its default)
+    if not e and (g + len(json.dumps(v))) % 2 == 0:
+        res = attempt(lambda: n.setter(g)(vn))
+    elif e and (g + len(json.dumps(v))) % 2 == 0:
+        res = attempt(lambda: n.setter(g, expand=True)(vn))
+    else:
+        res = attempt(lambda: n.setter(g, e)(vn))
     if isinstance(res, E):
         o_set, o_probes = res, []
     else:
